@@ -207,31 +207,32 @@ def gen_matrix_graph(rng, cap=1500):
     raise RuntimeError("zoo: could not generate a small matrix graph")
 
 
-def gen_deep_directed(rng, cap=1500):
-    """Directed (not inverse-closed) permutation graphs with MANY thin layers: cyclic shift (+ a swap / a second shift) acting on
-    a coloured sequence with one or two marked positions. 30-140 layers, small orbits, 1-5 code words."""
-    for _ in range(100):
-        n = rng.randint(18, 70)
+def gen_deep_directed(rng, cap=1500, min_layers=20):
+    """Directed (not inverse-closed) permutation graphs with MANY thin layers: a cyclic shift plus a swap (an involution: every use of it
+    creates an edge back to the previous layer) or a second shift, acting on a coloured sequence with one or two marked positions.
+    20-140 layers, small orbits, 1-5 code words."""
+    for _ in range(200):
+        n = rng.randint(24, 70)
         shift = [(i + 1) % n for i in range(n)]
         kind = rng.random()
-        if kind < 0.4:
+        if kind < 0.5:
             gens = [shift, [1, 0] + list(range(2, n))]                       # LX
-        elif kind < 0.6:
-            k = rng.randint(2, 5)
-            gens = [shift, [(i + k) % n for i in range(n)]]                  # two shifts
         elif kind < 0.8:
-            gens = [shift]                                                   # a directed cycle
-        else:
             a, b = rng.sample(range(n), 2)
             x = list(range(n)); x[a], x[b] = x[b], x[a]
             gens = [shift, x]
+        elif kind < 0.9:
+            k = rng.randint(2, 5)
+            gens = [shift, [(i + k) % n for i in range(n)]]                  # two shifts
+        else:
+            gens = [shift]                                                   # a directed cycle
         central = [0] * n
-        marks = rng.randint(1, 2)
+        marks = 2 if rng.random() < 0.7 else 1
         for c, pos in enumerate(rng.sample(range(n), marks)):
             central[pos] = c + 1 if rng.random() < 0.5 else 1
         gd = {"kind": "perm", "gens": gens, "central": central}
         r = ref_bfs(gd, [central], cap)
-        if r is not None and len(r[0]) >= 20:
+        if r is not None and len(r[0]) >= min_layers:
             return gd
     return gen_perm_graph(rng, cap, multiword=True)
 
@@ -290,7 +291,7 @@ def gen_config(rng, gd):
         cfgd["bit_encoding_width"] = rng.choice(["auto", None])
     cfgd["batch_size"] = rng.choice([1, 2, 3, 7, 2**20, 2**20])
     cfgd["hash_chunk_size"] = rng.choice([1, 3, 2**25, 2**25])
-    cfgd["random_seed"] = rng.choice([1, 7, 12345, rng.randrange(1, 2**40)])
+    cfgd["random_seed"] = rng.choice([0, 1, 7, 12345, rng.randrange(1, 2**40)])      # 0 is a seed like any other
     return cfgd
 
 
